@@ -1,4 +1,9 @@
 (* C08 — executable model of the exclusion-aware operations of utils/filesystem (definitions only).
+   Two layers: (1) the EXPECTED-SHAPE definitions (compile, expand, walk, ls, ..., remove_node, clean_dir) that the
+   lemmas of Proofs.v are about; (2) below, Section Generic: the same operations PARAMETERISED by a record of facts
+   that translator-c08 reads from the source on every run (Gen.v). ProofsGen.v shows that (2) coincides with (1)
+   whenever the facts of the operation concerned have the expected values; Props.v and the correspondence use (2)
+   instantiated with the generated record.
    Mirrors exclusion.go:11-57, files.go:138-219 (walk), :590-631 (CleanDir), :711-752 (Remove), :1175-1262 (Ls,
    LsRecursive), :1591-1730 (Copy), :1779-1873 (SubDirectories, ListDirTree), zip.go:72-166 (Zip) — the code AFTER
    the two repairs proposed in fixes/C08-*.patch (patterns handed down by CleanDir to the per-entry removal, which
